@@ -3,6 +3,7 @@ import Model.MuxPipe
 import Model.PoolLock
 import Model.MuxExec
 import Model.CtlBeat
+import Model.EvDeb
 namespace Driver.C06
 open Util
 
@@ -256,6 +257,10 @@ def XS.step (xs : XS) (w : String) : XS :=
       | _, _ => xs.fail "bad-op"
     | none => xs.fail "bad-op"
   | ['a'] => if xs.st.closed then xs.fail "bad-op" else { xs with out := s!"a={MuxExec.held xs.st 63}" :: xs.out }
+  | ['f'] =>
+    -- how many StreamFinished call-backs have run: one per id cleared (C06_exec_release_once / _released_exactly_once)
+    if xs.st.closed then xs.fail "bad-op" else
+    { xs with out := s!"f={((List.range xs.calls.length).map fun k => xs.st.clears (k + 1)).foldl (· + ·) 0}" :: xs.out }
   | ['K'] =>
     if xs.st.closed then xs.fail "bad-op" else
     let xs := (xs.act (.closeBegin false) "closeBegin").act .closeFinish "closeFinish"
@@ -322,6 +327,56 @@ def hbAnswer (proto when fate : String) : String :=
     | none => "closer-stuck"
   | _, _ => "bad-op"
 
+/-! ### `ev`: EVENT frames between responses while the handler of an earlier batch is held -/
+
+structure ES where
+  node : EvDeb.St
+  schema : EvDeb.St
+  calls : List Bool           -- answered?
+  out : List String
+  bad : Option String
+
+def evAct (d : EvDeb.St) (a : EvDeb.Act) : Option EvDeb.St := EvDeb.step d a
+
+def ES.step (es : ES) (w : String) : ES :=
+  if es.bad.isSome then es else
+  match w.toList with
+  | ['E'] => match evAct es.node .event with
+      | some d => { es with node := d }
+      | none => { es with bad := some "model-stuck:recv-blocked-by-event-handling" }
+  | ['S'] => match evAct es.schema .event with
+      | some d => { es with schema := d }
+      | none => { es with bad := some "model-stuck:recv-blocked-by-event-handling" }
+  | ['H'] =>
+      let fire := fun (d : EvDeb.St) =>
+        if d.buf = 0 then some d else (EvDeb.step d .timerFire).bind (fun d => EvDeb.step d .flush)
+      match fire es.node, fire es.schema with
+      | some a, some b => { es with node := a, schema := b, out := s!"h={a.handed}/{b.handed}" :: es.out }
+      | _, _ => { es with bad := some "model-stuck:flusher" }
+  | ['U'] =>
+      let drain := fun (d : EvDeb.St) => { d with running := 0 }
+      { es with node := drain es.node, schema := drain es.schema }
+  | ['q'] => if es.calls.length ≥ 40 then { es with bad := some "bad-op" } else { es with calls := es.calls ++ [false] }
+  | 'd' :: _ =>
+    match numTail w with
+    | some i =>
+      if i = 0 ∨ i > es.calls.length ∨ es.calls[i - 1]? ≠ some false then { es with bad := some "bad-op" }
+      else { es with calls := es.calls.set (i - 1) true }
+    | none => { es with bad := some "bad-op" }
+  | ['a'] => { es with out := s!"a={(es.calls.filter (· == false)).length}" :: es.out }
+  | _ => { es with bad := some "bad-op" }
+
+def evAnswer (proto : String) (steps : List String) : String :=
+  match proto.toNat? with
+  | some p =>
+    if p < 2 ∨ p > 4 then "bad-op" else
+    let es := steps.foldl ES.step { node := EvDeb.init, schema := EvDeb.init, calls := [], out := [], bad := none }
+    match es.bad with
+    | some b => b
+    | none =>
+      " ".intercalate (es.out.reverse ++ [";"] ++ es.calls.map (fun r => if r then "R" else "W"))
+  | none => "bad-op"
+
 /-! ### `cf` / `cfk`: closing over transports whose Close() reports an error -/
 
 def cfAnswer (kf : Bool) (ws : List String) : String :=
@@ -364,6 +419,7 @@ def step (s : S) (ws : List String) : S × String :=
   | "jr" :: proto :: wr :: tmo :: steps => (s, jrAnswer proto wr tmo steps)
   | "ex" :: proto :: wr :: steps => (s, exAnswer proto wr steps)
   | ["hb", proto, when, fate] => (s, hbAnswer proto when fate)
+  | "ev" :: proto :: steps => (s, evAnswer proto steps)
   | "cf" :: rest => (s, cfAnswer false rest)
   | "cfk" :: rest => (s, cfAnswer true rest)
   | _ => Driver.C01.step s ws
